@@ -186,6 +186,23 @@ func genC11(c *corpus, seed uint64) *scn.Scenario {
 	ni := 1 + r.n(2*nt+2)
 	pLarge := r.pick([]int{0, 0, 0, 2, 5, 20})
 	for i := 0; i < ni; i++ {
+		if i > 0 && r.chance(15) {
+			// a near-duplicate of an earlier input: same program, a few letters
+			// with flipped case (loosely keyed caches conflate the two)
+			src := s.Inputs[r.n(i)]
+			v := scn.Input{Name: src.Name + "[case]", Src: append([]byte(nil), src.Src...), Version: src.Version, Callback: src.Callback}
+			var letters []int
+			for k, ch := range v.Src {
+				if (ch >= 'a' && ch <= 'z') || (ch >= 'A' && ch <= 'Z') {
+					letters = append(letters, k)
+				}
+			}
+			for f := 1 + r.n(4); f > 0 && len(letters) > 0; f-- {
+				v.Src[letters[r.n(len(letters))]] ^= 0x20
+			}
+			s.Inputs = append(s.Inputs, v)
+			continue
+		}
 		s.Inputs = append(s.Inputs, c.input(r, pLarge))
 	}
 	shareAll := r.chance(50)
@@ -267,6 +284,9 @@ func genC13(c *corpus, seed uint64) *scn.Scenario {
 		op := scn.Op{Kind: kinds[r.n(len(kinds))]}
 		if withFaults && (op.Kind == "print" || strings.HasPrefix(op.Kind, "dump")) && r.chance(40) {
 			op.Fault = &scn.WFault{Kind: wfaults[r.n(len(wfaults))], At: r.n(100000)}
+		}
+		if withFaults && op.Kind == "traverse" && r.chance(40) {
+			op.Fault = &scn.WFault{Kind: "abort", At: r.n(100000)} // the visitor aborts the traversal
 		}
 		s.History = append(s.History, op)
 	}
